@@ -49,6 +49,7 @@ InitX == [ph |-> "pre",          \* pre | entering | rollback | body | exiting |
           early |-> {},          \* ghost: spawned tasks that had already ended when P was cancelled
           started |-> FALSE,     \* the body started
           again |-> FALSE,       \* a second entering of the same scope object was attempted (and refused)
+          reused |-> FALSE,      \* the same Disposables object went through a second scope (Again)
           out |-> "none"]        \* what left the block
 
 Init == /\ cfg \in [D -> [en : Behaviours, ex : Behaviours]]
@@ -216,11 +217,21 @@ ChildEndLate(u) ==
 (* the scope object is entered a SECOND time after the block was left: refused - no disposable is entered again (and so
    none is left un-exited), nothing changes *)
 ReEnter ==
-  /\ x.ph = "post" /\ ~x.again
+  /\ x.ph = "post" /\ ~x.again /\ ~x.reused
   /\ x' = [x EXCEPT !.again = TRUE] /\ UNCHANGED <<cfg, esp>>
   /\ obs' = obs
 
-Next == \/ Enter \/ Cancel \/ ReEnter
+(* the same Disposables OBJECT is handed to a second scope once the first one is over - a retry loop around the scope,
+   whatever the first attempt came to (entered and left, rolled back, cancelled).  This time nothing fails or suspends:
+   every disposable is entered exactly once more and exited exactly once more, with no exception - nothing of the first
+   attempt is carried over in the object *)
+Again ==
+  /\ ND >= 1 /\ x.ph = "post" /\ ~x.again /\ ~x.reused
+  /\ x' = [x EXCEPT !.reused = TRUE]          \* (the counters of x are those of the first scope: EnterOnce / ExitOnce)
+  /\ UNCHANGED <<cfg, esp>>
+  /\ obs' = [obs EXCEPT !.d = [i \in D |-> <<obs.d[i][1] + 1, obs.d[i][2] + 1, "none">>]]
+
+Next == \/ Enter \/ Cancel \/ ReEnter \/ Again
         \/ \E i \in D, how \in {"ok", "fail"} : ReleaseEnterLate(i, how) \/ ReleaseExitLate(i, how)
         \/ \E u \in Ch : ChildEndLate(u)
         \/ \E o \in {"return", "E", "BaseE"} : Leave(o)
